@@ -13,6 +13,13 @@ Monitors
            lengths, data side played by hand (vlib/hostwire.py): every emitted ACL / ISO packet
            fits the length advertised for the pool of ITS link, markers, reassembly per link,
            also after a second reset with another geometry
+  life     one pair of devices through life-cycle events: the peripheral reached through its controller's random
+           address, its PUBLIC address, or an extended advertising set with its own random / the public address;
+           Host.reset() of either host with the ACL link still up (same controller, same geometry); a bulk transfer
+           (more fragments than the controller has buffers, unacknowledged) cut by a disconnection of either side,
+           then a NEW connection. After every event PDUs that need more fragments than there are buffers must arrive
+           intact, exactly once, in order at the peer HOST's 'l2cap_pdu' event, under the handle of the connection,
+           with well-formed fragments
 """
 from __future__ import annotations
 
@@ -30,7 +37,8 @@ RULE = ('seeded cases over (transport, ACL length and buffer count per controlle
         '(malformation kind, geometry); ISO cases one per (packet length, SDU size list); distinct = distinct tuple. '
         'hostwire histories (Host.reset() against a Controller with three different pools, hand-played BR/EDR, LE, '
         'CIS and BIS links with PDU/SDU sizes around each pool\'s length, optionally a second reset with another '
-        'geometry) are non-trivial when a unit needed >= 2 fragments; distinct = distinct (geometries, operations)')
+        'geometry) are non-trivial when a unit needed >= 2 fragments; distinct = distinct (geometries, operations); '
+        'life: one per (transport, geometry, address kinds, sequence of reset / cut bulk transfer / reconnection)')
 ASSUMPTIONS = [
     'the virtual link is lossless',
     'an exception escaping Host.on_packet for a malformed fragment is tolerated (counted) as long as the next '
@@ -39,6 +47,12 @@ ASSUMPTIONS = [
     'hostwire: the maximum data length of a link is the one the controller wrote into its (LE_)Read_Buffer_Size[_V2] '
     'Command Complete for the pool of that link (LE link -> LE pool unless its length/count is zero, then the BR/EDR '
     'pool; CIS/BIS -> ISO pool); every link is gone before Host.reset() is called a second time',
+    'life: Host.reset() called again while a link is up is taken to be inside "every combination of buffer length and '
+    'count" only as far as the unchanged stack supports it: the virtual controller keeps its connections over HCI_Reset '
+    'and the Host keeps Host.connections, so what the reset host SENDS afterwards on that link is judged (delivery at the '
+    "peer, fragments); what it RECEIVES is not, because its Device dropped its Connection objects at the flush. The "
+    "controller's geometry is the same before and after. PDUs of a bulk transfer that is cut by a disconnection may be "
+    'lost; the transfers on the connection made afterwards may not',
 ]
 # hostwire: deciding counters (about half of what a run produces)
 HOSTWIRE_MIN = {'hostwire_histories': 2400, 'hostwire_fragments_checked': 100000, 'hostwire_fragments_le': 35000,
@@ -46,11 +60,16 @@ HOSTWIRE_MIN = {'hostwire_histories': 2400, 'hostwire_fragments_checked': 100000
                 'hostwire_packets_shared': 10000, 'hostwire_second_resets': 900,
                 'hostwire_fragments_after_second_reset': 40000, 'hostwire_fragments_at_length_limit': 45000,
                 'hostwire_multi_fragment_units': 40000, 'hostwire_pdus_rebuilt': 35000, 'hostwire_sdus_rebuilt': 20000}
+LIFE_MIN = {'life_cases': 220, 'life_transfers': 600, 'life_fragments_checked': 35000, 'life_second_resets_with_link_up': 120,
+            'life_transfers_after_second_reset': 120, 'life_bulk_transfers_cut': 120, 'life_transfers_after_cut_bulk_transfer': 120,
+            'life_bulk_transfers_cut_far_beyond_buffers': 90, 'life_connections_public': 200, 'life_connections_set_random': 60,
+            'life_connections_set_public': 35, 'life_reconnections': 300}
 MIN_EVENTS = {
     'quick': {'fragments_checked': 35000, 'pdus_delivered': 5000, 'malformed_injected': 1200, 'iso_fragments': 20000,
-              'max_size_pdus': 30, **HOSTWIRE_MIN},
+              'max_size_pdus': 30, **HOSTWIRE_MIN, **LIFE_MIN},
     'thorough': {'fragments_checked': 250000, 'pdus_delivered': 25000, 'malformed_injected': 9000,
-                 'iso_fragments': 200000, 'max_size_pdus': 150, **{k: 16 * v for k, v in HOSTWIRE_MIN.items()}},
+                 'iso_fragments': 200000, 'max_size_pdus': 150, **{k: 16 * v for k, v in HOSTWIRE_MIN.items()},
+                 **{k: 7 * v for k, v in LIFE_MIN.items()}},
 }
 CASE_TIMEOUT = 600
 
@@ -67,6 +86,8 @@ def plan(tier, seed):
         cases.append({'kind': 'malformed', 'seed': seed * 1000003 + i})
     for i in range(400 if tier == 'quick' else 3200):
         cases.append({'kind': 'iso', 'seed': seed * 1000003 + i})
+    for i in range(240 if tier == 'quick' else 2000):
+        cases.append({'kind': 'life', 'seed': seed * 1000003 + i})
     for i in range(96 if tier == 'quick' else 960):
         cases.append({'kind': 'hostwire', 'seed': seed * 1000003 + i, 'histories': 25 if tier == 'quick' else 40})
     return cases
@@ -381,6 +402,266 @@ def iso_case(case, r: R):
 
 
 # =============================================================================
+# life: delivery and fragmentation across life-cycle events
+# =============================================================================
+ADDRESS_KINDS = ['random', 'public', 'set-random', 'set-public']
+
+
+async def life_connect(rg, kind, init_public, round_):
+    """Device 0 connects to device 1, which is reached through its controller's random address, its PUBLIC address,
+    or an extended advertising set with its own random address / the public address. Returns (central conn,
+    peripheral conn)."""
+    from bumble import hci
+    from bumble.device import AdvertisingParameters, AdvertisingEventProperties
+    c, p = rg.devices[0], rg.devices[1]
+    fut = rg.loop.create_future()
+    p.once('connection', lambda conn: fut.done() or fut.set_result(conn))
+    if kind.startswith('set'):
+        own = hci.OwnAddressType.PUBLIC if kind == 'set-public' else hci.OwnAddressType.RANDOM
+        set_address = hci.Address(f'C{round_ & 7}:5E:75:E7:00:F{round_ & 7}', hci.Address.RANDOM_DEVICE_ADDRESS)
+        await vloop.vwait(p.create_advertising_set(
+            advertising_parameters=AdvertisingParameters(
+                advertising_event_properties=AdvertisingEventProperties(is_connectable=True, is_scannable=False),
+                primary_advertising_interval_min=40, primary_advertising_interval_max=40, own_address_type=own),
+            random_address=set_address, auto_start=True))
+        target = p.public_address if kind == 'set-public' else set_address
+    else:
+        own = hci.OwnAddressType.PUBLIC if kind == 'public' else hci.OwnAddressType.RANDOM
+        await vloop.vwait(p.start_advertising(auto_restart=False, own_address_type=own, advertising_interval_min=40,
+                                              advertising_interval_max=40))
+        target = p.public_address if kind == 'public' else p.random_address
+    iown = hci.OwnAddressType.PUBLIC if init_public else hci.OwnAddressType.RANDOM
+    cc = await vloop.vwait(c.connect(target, own_address_type=iown, timeout=30))
+    pc = await vloop.vwait(fut)
+    return cc, pc
+
+
+async def life(case, r: R):
+    """One pair of devices through a life: connection (peripheral reached through one of four kinds of address),
+    transfer, Host.reset() of either host with the link still up (same controller, same geometry), a bulk transfer
+    (more fragments than the controller has buffers, unacknowledged) cut by a disconnection of either side, a NEW
+    connection (same or another kind of address) - after each event a transfer in both directions must arrive
+    intact, exactly once, in order (observed at the Hosts' 'l2cap_pdu' events) with well-formed fragments."""
+    from bumble import hci
+    from bumble.core import PhysicalTransport
+    from vlib import rig as vrig
+    rng = random.Random(case['seed'] ^ 0x11FE)
+    vrig.seed_entropy(case['seed'])
+    classic = rng.random() < 0.2
+    lens = [rng.choice(LENS) for _ in range(2)]
+    nums = [rng.choice([1, 2, 3, 8, 64]) for _ in range(2)]
+    delay = rng.choice([0, 0, 1, 4])
+    kw = dict(acl_len=lens, acl_num=nums) if classic else dict(le_acl_len=lens, le_acl_num=nums)
+    rg = vrig.Rig(2, seed=case['seed'], max_delay=delay, classic=classic, **kw)
+    ext = (not classic) and rng.random() < 0.5
+    if ext:
+        for c in rg.controllers:
+            c.le_features = c.le_features | hci.LeFeatureMask.LE_EXTENDED_ADVERTISING
+    await rg.power_on()
+    tr = 'bredr' if classic else 'le'
+    got = {0: [], 1: []}        # (handle, payload) seen by each HOST
+    for i in (0, 1):
+        rg.hosts[i].on('l2cap_pdu', lambda handle, cid, pdu, _i=i: got[_i].append((handle, bytes(pdu))) if cid == CID else None)
+    hist = []
+    counter = [0]
+    r.ev('life_cases')
+
+    def kinds():
+        if classic:
+            return ['public']
+        return ADDRESS_KINDS if ext else ADDRESS_KINDS[:2]
+
+    async def connect(round_):
+        if classic:
+            cc, pc = await rg.connect_classic(0, 1)
+            kind = 'public'
+        else:
+            kind = rng.choice(kinds())
+            cc, pc = await life_connect(rg, kind, rng.random() < 0.3, round_)
+        await rg.quiesce()
+        hist.append(f'connected/{kind}')
+        r.ev(f'life_connections_{kind.replace("-", "_")}')
+        return cc, pc, kind
+
+    async def transfer(cc, pc, kind, phase, senders=(0, 1)):
+        """PDUs both ways (or from `senders` only); True when everything arrived intact."""
+        marks = {i: len(got[i]) for i in (0, 1)}
+        start_log = len(rg.hci_log)
+        sent = {0: [], 1: []}
+        plan_ = [(w, s) for w in senders for s in sizes_for(rng, lens[w], False)]
+        # per direction, more fragments than the sender's controller has buffers
+        for who in senders:
+            need = nums[who] + 2
+            while need > 0:
+                size = min(lens[who] * need - 4 + rng.choice([-1, 0, 1]), 20000)
+                plan_.append((who, size))
+                need -= -(-(size + 4) // lens[who])
+        rng.shuffle(plan_)
+        for who, size in plan_:
+            counter[0] += 1
+            p = payload_for(counter[0], size)
+            rg.hosts[who].send_l2cap_pdu((cc if who == 0 else pc).handle, CID, p)
+            sent[who].append(p)
+            if rng.random() < 0.3:
+                await asyncio.sleep(0)
+
+        async def done():
+            while len(got[1]) - marks[1] < len(sent[0]) or len(got[0]) - marks[0] < len(sent[1]):
+                await asyncio.sleep(0.05)
+        key = f'{tr}/{phase}/peripheral-{kind}'
+        r.ev('life_transfers')
+        r.ev(f'life_transfers_{phase.replace("-", "_")}')
+        try:
+            await vloop.vwait(done(), 120)
+        except vloop.Hang:
+            pending = [getattr(h.connections.get(c.handle), 'acl_packet_queue', None) for h, c in ((rg.hosts[0], cc), (rg.hosts[1], pc))]
+            r.bad(f'deliver/lost/life/{key}',
+                  f'host 1 got {len(got[1]) - marks[1]}/{len(sent[0])} and host 0 got {len(got[0]) - marks[0]}/{len(sent[1])} PDUs '
+                  f'120 virtual s after they were sent; lens={lens} nums={nums} sizes={[len(p) for p in sent[0]]}/'
+                  f'{[len(p) for p in sent[1]]}; packets still queued in the hosts: {[q.pending if q else None for q in pending]}; '
+                  f'history {hist}; exceptions={rg.exceptions[:2]}')
+            return False
+        await rg.quiesce()
+        ok = True
+        for src, dst, dconn in ((0, 1, pc), (1, 0, cc)):
+            have = got[dst][marks[dst]:]
+            r.ev('oracle_evals')
+            r.ev('pdus_delivered', len(have))
+            r.ev('life_pdus_delivered', len(have))
+            want = [(dconn.handle, p) for p in sent[src]]
+            if have != want:
+                ok = False
+                hp = [p for _h, p in have]
+                if hp == sent[src]:
+                    r.bad(f'deliver/wrong-handle/life/{key}', f'host {dst} attributes the PDUs to handle {[hex(h) for h, _ in have][:3]}, '
+                                                              f'the connection has {dconn.handle:#x}; history {hist}')
+                elif sorted(hp) == sorted(sent[src]):
+                    r.bad(f'deliver/reordered/life/{key}', f'host {dst} received the PDUs in another order; history {hist}')
+                elif len(hp) > len(sent[src]):
+                    r.bad(f'deliver/duplicated/life/{key}', f'host {dst} got {len(hp)} PDUs for {len(sent[src])} sent; history {hist}')
+                else:
+                    k = next(i for i in range(len(hp)) if hp[i] != sent[src][i])
+                    r.bad(f'deliver/corrupt/life/{key}', f'PDU #{k}: got {len(hp[k])} bytes, sent {len(sent[src][k])}; lens={lens}; '
+                                                         f'history {hist}')
+        # fragment oracle over what each host emitted during this transfer
+        for dev, conn in ((0, cc), (1, pc)):
+            L = lens[dev]
+            ref = vrig.RefReassembler()
+            rebuilt = []
+            in_pdu = False
+            for seq, d, direction, pkt, _t in rg.hci_log[start_log:]:
+                if d != dev or direction != vrig.H2C or pkt[0] != 2:
+                    continue
+                handle, pb, bc, data = vrig.parse_acl(pkt)
+                r.ev('fragments_checked')
+                r.ev('life_fragments_checked')
+                r.ev('oracle_evals', 3)
+                if handle != conn.handle:
+                    ok = False
+                    r.bad(f'frag/foreign-handle/life/{key}', f'dev{dev} emitted an ACL packet for handle {handle:#x} while its only '
+                                                             f'connection has {conn.handle:#x}; history {hist}')
+                    continue
+                if len(data) > L:
+                    ok = False
+                    r.bad(f'frag/too-long/life/{key}', f'ACL fragment of {len(data)} bytes > controller data length {L}; history {hist}')
+                want_pb = 1 if in_pdu else 0
+                if pb != want_pb:
+                    ok = False
+                    r.bad(f'frag/{"continuation" if in_pdu else "first"}-marker/life/{key}',
+                          f'fragment carries pb={pb:02b}, expected {want_pb:02b}; history {hist}')
+                    pb = want_pb
+                for cid, payload in ref.feed((dev, handle), pb, data):
+                    if cid == CID:
+                        rebuilt.append(payload)
+                in_pdu = (dev, handle) in ref.buf
+            r.ev('oracle_evals')
+            if rebuilt != sent[dev]:
+                ok = False
+                r.bad(f'frag/reassembly-mismatch/life/{key}',
+                      f'independent reassembly of dev{dev} fragments gives {len(rebuilt)} PDUs, {len(sent[dev])} were sent '
+                      f'(lens={lens}); history {hist}')
+        return ok
+
+    try:
+        cc, pc, kind = await connect(0)
+        if not await transfer(cc, pc, kind, 'first-connection'):
+            return
+        steps = rng.sample(['reset', 'reset', 'cut', 'cut', 'reconnect'], rng.choice([2, 3, 3, 4]))
+        for n, step in enumerate(steps):
+            if step == 'reset':
+                # the application restarts its stack on a controller that stays up: the link is still there
+                who = rng.choice([0, 1])
+                await rg.quiesce()
+                await vloop.vwait(rg.hosts[who].reset())
+                await rg.quiesce()
+                hist.append(f'host-{who}-reset')
+                r.ev('life_second_resets_with_link_up')
+                r.ev('oracle_evals')
+                if (cc if who == 0 else pc).handle not in rg.hosts[who].connections:
+                    r.ev('life_reset_dropped_the_connection')       # then nothing is demanded of it
+                    return
+                # (the Device of the host that was reset has dropped its Connection objects at the flush: what that
+                # host RECEIVES afterwards is not judged, what it SENDS on the link it still has is)
+                if not await transfer(cc, pc, kind, 'after-second-reset', senders=(who,)):
+                    return
+                hist.append('not-usable-towards-the-reset-host')
+                # the scenario goes on with a new connection
+                await vloop.vwait((pc if who == 0 else cc).disconnect())
+                await rg.quiesce()
+                cc, pc, kind = await connect(n + 1)
+                r.ev('life_reconnections')
+                if not await transfer(cc, pc, kind, 'after-reconnection'):
+                    return
+                continue
+            if step == 'cut':
+                # a bulk transfer (more fragments than the controller has buffers), cut by a disconnection
+                who = rng.choice([0, 1])
+                conn = cc if who == 0 else pc
+                total = 0
+                while total < nums[who] + rng.choice([2, 10, 70]):
+                    size = min(lens[who] * rng.choice([3, 8, 70]) - 4, 20000)
+                    counter[0] += 1
+                    rg.hosts[who].send_l2cap_pdu(conn.handle, CID, payload_for(counter[0], size))
+                    total += -(-(size + 4) // lens[who])
+                for _ in range(rng.choice([0, 1, 3, 10, 40])):
+                    await asyncio.sleep(0)
+                by = rng.choice(['sender', 'receiver'])
+                dropper = conn if by == 'sender' else (pc if who == 0 else cc)
+                before = len([x for x in rg.hci_log if x[1] == who and x[2] == vrig.H2C and x[3][0] == 2])
+                await vloop.vwait(dropper.disconnect())
+                await rg.quiesce()
+                hist.append(f'bulk-{total}-fragments-from-{who}-cut-by-{by}')
+                r.ev('life_bulk_transfers_cut')
+                if total >= nums[who] + 10:
+                    r.ev('life_bulk_transfers_cut_far_beyond_buffers')
+            else:
+                await vloop.vwait(rng.choice([cc, pc]).disconnect())
+                await rg.quiesce()
+                hist.append('disconnected')
+            # everything the hosts saw so far belongs to the old connection
+            cc, pc, kind = await connect(n + 1)
+            r.ev('life_reconnections')
+            phase = 'after-cut-bulk-transfer' if step == 'cut' else 'after-reconnection'
+            if not await transfer(cc, pc, kind, phase):
+                return
+    except vloop.Hang:
+        r.bad(f'life/hang/{tr}', f'a connect() / disconnect() / reset() was still pending at T_v; history {hist}; '
+                                 f'exceptions={rg.exceptions[:2]}')
+    except Exception as e:
+        from bumble import core
+        if isinstance(e, (core.TimeoutError, asyncio.TimeoutError, core.ConnectionError, hci.HCI_Error)):
+            r.bad(f'life/call-failed/{tr}/{type(e).__name__}', f'{type(e).__name__}: {e}; history {hist}')
+        else:
+            raise
+    for where, e in rg.exceptions:
+        r.bad(f'deliver/exception-in-stack/life/{tr}', f'{where}: {e}; lens={lens} history {hist}')
+    r.sig('life', classic, ext, tuple(lens), tuple(nums), tuple(hist))
+    r.sched.add(rg.schedule_signature)
+    r.evals()
+    r.sample = {'kind': 'life', 'transport': tr, 'acl_len': lens, 'acl_num': nums, 'delay': delay, 'history': hist}
+
+
+# =============================================================================
 # hostwire: fragments against the data length of the pool the link belongs to
 # =============================================================================
 class _FragState:
@@ -569,6 +850,8 @@ def run_case(case, r: R):
         return hostwire_case(case, r)
     if case['kind'] == 'xfer':
         return xfer(case, r)
+    if case['kind'] == 'life':
+        return life(case, r)
     if case['kind'] == 'malformed':
         return malformed(case, r)
     return iso_case(case, r)
@@ -580,7 +863,10 @@ LEVEL_TEXT = ('Fragment-level oracle (length bound, start/continuation markers, 
               'malformed fragment sequences injected between good PDUs; ISO SDU fragmentation checked field by field; '
               '2400 (quick) / 38400 (thorough) histories of a real Host reset against a Controller whose BR/EDR, LE '
               '(dedicated or shared) and ISO pools have different lengths, with hand-played BR/EDR / LE / CIS / BIS links '
-              'and a second reset with another geometry: every emitted fragment against the length of its own pool. '
+              'and a second reset with another geometry: every emitted fragment against the length of its own pool; '
+              '240 (quick) / 2000 (thorough) device-pair lives (peripheral reached through random / public / advertising-set '
+              'addresses, Host.reset() with the link up, bulk transfers cut by a disconnection, new connections) with the '
+              'delivery and fragment oracles after every event. '
               'Sampling with boundary-biased sizes, not proof.')
 LEVEL_NOTE = ('Trusted: vlib/rig.py taps and RefReassembler (20 lines), the hand-built ACL/L2CAP/ISO headers in '
               'checks/c05.py, the ledger and hand-written HCI events of vlib/hostwire.py, virtual-time loop. In the '
